@@ -737,8 +737,8 @@ M('c20-root-shared', ['C20', 'C07'], 'core.py',
   "        CHILD_ERRORS: _ROOT_ERRORS,\n        'globals': ScopeVars({}, {}),",
   "all calls share one root error list")
 M('c20-finalize-global', ['C20'], 'core.py',
-  "        self._scope = scope\n\n    def __str__(self):",
-  "        self._scope = scope\n        GlomError._last_scope = scope\n\n    def __str__(self):",
+  "        self._scope = scope\n        # a copy of an error",
+  "        self._scope = scope\n        GlomError._last_scope = scope\n        # a copy of an error",
   "finalisation records the failing frame on the class")
 
 
